@@ -82,6 +82,9 @@ class Ctx:
                         f = None
                     if f is not None:
                         self._role_names[id(f.node)] = (f"{f.cls.name}.<{role}>" if f.cls else f"<{role}>")
+                # the run method behind a re-raising public wrapper keeps the public name in finding keys
+                if getattr(R, "optimize_wrappers", None):
+                    self._role_names[id(R.optimize.node)] = R.optimize_wrappers[0].short
             except Exception:
                 self._role_names[-1] = ""
         return self._role_names.get(id(fn.node), fn.short)
